@@ -782,7 +782,31 @@ pub fn run_render(ctx: &Ctx, rep: &Report) {
                 }
             }
         }
-        rep.part("very long search queries (63..=300 characters; a multi-byte character at every byte offset 50..=140), a draw after every key", c, json!({}));
+        // a query that outgrows the line it is shown on, with a multi-byte character near its START, at several terminal
+        // widths: whatever part of the query is shown (head, tail, middle), the cut must respect character boundaries
+        for width in [20u16, 40, 60, 80, 100, 132] {
+            for wide in ['\u{e9}', '\u{20ac}', '\u{1f600}'] {
+                for at in 0usize..=8 {
+                    let mut s = St2 { total: 3, core: St { n: 0, sel: Some(0), quit: false, search: false, sort: 3, asc: false, query: String::new(), width } };
+                    let mut evs = vec![Event::Key(KeyEvent::new(KeyCode::Char('/'), KeyModifiers::NONE))];
+                    for i in 0..(width as usize + 12) {
+                        let ch = if i == at || i == at + 9 { wide } else { (b'a' + (i % 26) as u8) as char };
+                        evs.push(Event::Key(KeyEvent::new(KeyCode::Char(ch), KeyModifiers::NONE)));
+                    }
+                    for (i, ev) in evs.iter().enumerate() {
+                        c += 1;
+                        match step2(&s, *ev) {
+                            Ok(t) => s = t,
+                            Err(p) => {
+                                rep.violation(&format!("panic:long-query:{}:{}", last_panic_file(), panic_class(&p)), format!("{p} (at {}) on a terminal {width} columns wide after '/' and {i} characters with {wide:?} at positions {at} and {}", last_panic_loc(), at + 9), json!({"kind": "long-query-width", "char": wide.to_string(), "at": at, "width": width}));
+                                break;
+                            }
+                        }
+                    }
+                }
+            }
+        }
+        rep.part("very long search queries (63..=300 characters; a multi-byte character at every byte offset 50..=140; queries that outgrow the line at six widths with a multi-byte character near their start), a draw after every key", c, json!({}));
         total_trans += c;
         total_states += c;
     }
@@ -927,6 +951,29 @@ pub fn replay_render(w: &Value, rep: &Report) {
         let evs: Vec<Event> = w["events"].as_array().map(|a| a.iter().filter_map(|x| alpha.iter().find(|(n, _)| Some(n.as_str()) == x.as_str()).map(|(_, e)| *e)).collect()).unwrap_or_default();
         if let Err(p) = sort_and_draw(w["aircraft"].as_u64().unwrap_or(70) as usize, &evs) {
             rep.violation(&format!("panic:sort:{}:{}", last_panic_file(), panic_class(&p)), p, w.clone());
+        }
+        rep.trans(1);
+        rep.state(1);
+        return;
+    }
+    if w["kind"].as_str() == Some("long-query-width") {
+        let width = w["width"].as_u64().unwrap_or(80) as u16;
+        let at = w["at"].as_u64().unwrap_or(0) as usize;
+        let wide = w["char"].as_str().and_then(|x| x.chars().next()).unwrap_or('\u{e9}');
+        let mut s = St2 { total: 3, core: St { n: 0, sel: Some(0), quit: false, search: false, sort: 3, asc: false, query: String::new(), width } };
+        let mut evs = vec![Event::Key(KeyEvent::new(KeyCode::Char('/'), KeyModifiers::NONE))];
+        for i in 0..(width as usize + 12) {
+            let ch = if i == at || i == at + 9 { wide } else { (b'a' + (i % 26) as u8) as char };
+            evs.push(Event::Key(KeyEvent::new(KeyCode::Char(ch), KeyModifiers::NONE)));
+        }
+        for ev in evs {
+            match step2(&s, ev) {
+                Ok(t) => s = t,
+                Err(p) => {
+                    rep.violation(&format!("panic:long-query:{}:{}", last_panic_file(), panic_class(&p)), p, w.clone());
+                    break;
+                }
+            }
         }
         rep.trans(1);
         rep.state(1);
